@@ -148,7 +148,6 @@ func VerifH_ChanFreshRace() {
 	vrt.Cover("chan-fresh-end")
 }
 
-
 // VerifH_ChanMakeRacesGet: on a fresh Chan, Make races the first Get and a later Close:
 // whichever initialises first wins, every Get returns that one channel, and Close closes
 // the channel the observers hold (no orphaned channel, no lost wake-up).
